@@ -166,6 +166,12 @@ func runC19(c *Ctx) {
 		`{"swagger":"2.0","info":{"title":"t","version":"1"},"paths":{"/a":{"get":{"responses":{"999":{"description":"d"}}}}}}`,
 		`{"swagger":"2.0","info":{"title":"t","version":"1"},"paths":{"/a":{"get":{"responses":{"600":{"description":"d"},"x-note":1}}}}}`,
 		`{"swagger":"2.0","info":{"title":"t","version":"1"},"paths":{"/a":{"get":{"responses":{"100":{"description":"d"}}}}}}`,
+		// vendor extensions whose names the Go model knows as fields of its own (x-nullable, x-order ...) at every place
+		// that allows ^x- members only: they stay extensions
+		`{"swagger":"2.0","info":{"title":"t","version":"1"},"paths":{},"parameters":{"tags":{"name":"tags","in":"query","type":"array","x-nullable":true,"items":{"type":"string","x-nullable":true,"x-order":1}}}}`,
+		`{"swagger":"2.0","info":{"title":"t","version":"1"},"paths":{"/a":{"get":{"responses":{"200":{"description":"d","headers":{"X-Rate":{"type":"array","x-nullable":true,"items":{"type":"array","x-nullable":true,"items":{"type":"integer","x-nullable":true}}}}}}}}}}`,
+		`{"swagger":"2.0","info":{"title":"t","version":"1"},"paths":{"/a":{"get":{"parameters":[{"$ref":"#/parameters/tags"}],"responses":{"200":{"description":"d"}}}}},"parameters":{"tags":{"name":"tags","in":"header","type":"array","items":{"type":"string","x-nullable":true,"x-example":"a"},"x-example":["a"]}}}`,
+		`{"swagger":"2.0","info":{"title":"t","version":"1"},"paths":{},"definitions":{"d":{"type":"object","x-nullable":true,"x-order":3,"properties":{"p":{"type":"string","x-nullable":false,"x-order":"2"}}}}}`,
 	}
 	for _, b := range boundary {
 		cands = append(cands, wire.MustParse(b))
